@@ -37,6 +37,7 @@ class Spec:
         self.properties = []
         self.extra = collections.OrderedDict()
         self.is_lemma = False
+        self.is_harness = False
         self.tolerate = collections.OrderedDict()   # name -> (regex on obligation description, reason)
 
     def loop(self, k):
@@ -74,6 +75,15 @@ def load_specs(directory):
                 for opt, val in cp.items(sec):
                     lem.extra[opt] = ' '.join(l.strip() for l in val.strip().splitlines())
                 specs[lem.key] = lem
+                continue
+            mh = re.match(r'^harness\s+(.*)$', sec)
+            if mh:
+                h = Spec('harness:' + mh.group(1).strip(), path)
+                h.is_harness = True
+                for opt, val in cp.items(sec):
+                    h.extra[opt] = val.strip()
+                h.raises = []
+                specs[h.key] = h
                 continue
             m = re.match(r'^fn\s+(.*)$', sec)
             if not m:
